@@ -989,7 +989,34 @@ impl<'a> Printer<'a> {
         }
         let top = self.live(&self.prog.top);
         let ids: Vec<usize> = self.prog.top.iter().enumerate().filter(|(_, s)| !self.removed.contains(&s.id)).map(|(i, _)| i).collect();
+        // rarely: tens to hundreds of kilobytes of blank lines and comments between two
+        // top-level statements, so that the script crosses buffer- and chunk-size thresholds
+        // (and the statements after it sit at six-digit line numbers)
+        let bulk_at: Option<usize> = if self.lay.enabled && !top.is_empty() && self.rng.chance(1, 120) { Some(self.rng.usize_below(top.len())) } else { None };
         for (k, s) in top.iter().enumerate() {
+            if bulk_at == Some(k) {
+                let target = [9_000usize, 70_000, 140_000, 300_000][self.rng.usize_below(4)] + self.rng.usize_below(5000);
+                let start = self.out.len();
+                while self.out.len() - start < target {
+                    match self.rng.below(4) {
+                        0 => {
+                            let n = 1 + self.rng.usize_below(4000);
+                            let unit = ["x", "é", "日本", "# "][self.rng.usize_below(4)];
+                            let line = format!("# {}", unit.repeat(n));
+                            self.raw(&line);
+                            self.nl();
+                        }
+                        _ => {
+                            for _ in 0..(1 + self.rng.below(400)) {
+                                self.nl();
+                            }
+                        }
+                    }
+                }
+                self.global_feats.insert("bulk-padding".into());
+                self.global_feats.insert("blank-lines".into());
+                self.global_feats.insert("comment-before".into());
+            }
             self.cur_top = ids[k];
             self.stmt(s);
             ends.push(self.out.len());
